@@ -864,6 +864,14 @@ func (e *c03Env) send(c *c03Case) (obs string) {
 		if c.Body.Gz != 0 {
 			req.Header.Set("Content-Encoding", "gzip")
 		}
+		// the reply's media type is negotiated from Accept and has no say in how the request body is read:
+		// a third of the requests ask for the other codec, a third for anything
+		switch len(c.Body.Raw) % 3 {
+		case 1:
+			req.Header.Set("Accept", map[string]string{"j": "application/protobuf", "p": "application/json"}[c.Body.Codec])
+		case 2:
+			req.Header.Set("Accept", "*/*")
+		}
 	} else {
 		req = httptest.NewRequest(c.Rule.Verb, target, nil)
 	}
